@@ -130,6 +130,14 @@ class Ops:
             return self.ctx.datatypes[key]
         if isinstance(desc, dsl.Const):
             return ElemType(z3.BoolSort(), "const", rec=desc)
+        if isinstance(desc, dsl.SeqOf):
+            key = f"seq:{desc.elem!r}"
+            if key not in self.ctx.datatypes:
+                self.ctx.datatypes[key] = ElemType(z3.DeclareSort(f"SeqRef_{len(self.ctx.datatypes)}"), "seq", rec=desc)
+            return self.ctx.datatypes[key]
+        if isinstance(desc, dsl.SetOf):
+            inner = self.elem_type(desc.elem)
+            return ElemType(z3.ArraySort(inner.sort, z3.BoolSort()), "set", rec=desc, accessors={"inner": inner})
         if isinstance(desc, dsl.Ref):
             key = f"ref:{desc.cls}"
             if key not in self.ctx.datatypes:
@@ -155,6 +163,10 @@ class Ops:
             return ListV([self.unpack(acc(term), sub) for _, (acc, sub) in sorted(et.accessors.items())])
         if et.kind == "const":
             return self.from_python(et.rec.value)
+        if et.kind == "set":
+            return SetV(arr=term, et=et.accessors["inner"])
+        if et.kind == "seq":
+            return self.ref_field(term, f"seq<{et.rec.elem!r}>", et.rec)
         if et.kind == "union":
             last = max(et.accessors)
             for i, (_mk, is_alt, payload, sub) in sorted(et.accessors.items()):
@@ -191,6 +203,10 @@ class Ops:
             return et.constructor(*[self.pack(v, et.accessors[i][1]) for i, v in enumerate(value.items)])
         if et.kind == "const":
             return z3.BoolVal(True)
+        if et.kind == "set":
+            if not isinstance(value, SetV):
+                raise Unsupported(f"expected set, got {value!r}")
+            return self.set_to_array(value, et.accessors["inner"])
         if et.kind == "union":
             for i, (mk_alt, _is, _payload, sub) in sorted(et.accessors.items()):
                 if isinstance(value, ObjV) and sub.kind == "rec" and sub.rec.cls == value.cls:
@@ -332,7 +348,8 @@ class Ops:
         if isinstance(v, SetV):
             if v.items is not None:
                 return z3.Or([c for _, c in v.items]) if v.items else False
-            raise Unsupported("truth of a characteristic-array set")
+            x = z3.Const(self.ctx.fresh_name("x"), v.et.sort)
+            return z3.Exists([x], z3.Select(v.arr, x))
         if isinstance(v, DictV):
             if v.entries is not None:
                 return bool(v.entries)
@@ -508,6 +525,12 @@ class Ops:
 
     # ---- arithmetic ------------------------------------------------------------------------------
     def binop(self, op: str, a: V, b: V, line: int = 0) -> V:
+        if op in ("|", "&", "^") and isinstance(a, BoolV) and isinstance(b, BoolV):
+            if op == "|":
+                return BoolV(z3.Or(a.t, b.t))
+            if op == "&":
+                return BoolV(z3.And(a.t, b.t))
+            return BoolV(z3.Xor(a.t, b.t))
         if is_num(a) and is_num(b):
             real = isinstance(a, RealV) or isinstance(b, RealV)
             ta, tb = as_num_term(a), as_num_term(b)
